@@ -50,6 +50,12 @@ class ComplexResult(ArithmeticError):
 
 
 CUR = None  # the active environment (SymEnv or ConcEnv)
+PATH_RESET_HOOKS = []   # callables run before every path / concrete replay (e.g. restore process-wide mutable state)
+
+
+def _run_reset_hooks():
+    for h in PATH_RESET_HOOKS:
+        h()
 
 
 def cur():
@@ -565,6 +571,7 @@ class SymEnv:
 
     # ---- path management -------------------------------------------------------------------
     def start_path(self, replay):
+        _run_reset_hooks()
         self.replay = list(replay)
         self.trace = []
         self.pc = []
@@ -1162,6 +1169,7 @@ class ConcForkEnv(ConcEnv):
         self.trace = []
 
     def start_path(self, replay):
+        _run_reset_hooks()
         self.replay = list(replay)
         self.trace = []
         self.weight = Fraction(1)
@@ -1230,6 +1238,7 @@ def run_concrete(env: ConcEnv, fn, *args, **kwargs):
     global CUR
     prev = CUR
     CUR = env
+    _run_reset_hooks()
     try:
         try:
             fn(env, *args, **kwargs)
